@@ -21,7 +21,10 @@ CFG = {
         "for each call). Proof is the right level: the quantifier is over unboundedly many histories; the code is six small lock-protected state machines."
     ),
     "level_note": (
-        "case_sound is a real theorem (generic simulation h_sound + one-step lemmas p_step_ok / m_step_ok / s_step_ok / q_step_ok), not a conjunction. "
+        "case_sound is a real theorem for the sequential classes (generic simulation h_sound + one-step lemmas p_step_ok / m_step_ok / s_step_ok / q_step_ok), not a conjunction. "
+        "For the concurrent class 'race add-vs-close' (C12_Race.v) case_accept := (the harness' witness linearisation respects real-time precedence and is replayed by the sequential model with the observed results) && r_holds, "
+        "so case_sound is by conjunction there; r_holds states clauses that hold for every linearisation (an add invoked after Close returned is refused; after a drain reported closed-and-empty no later pop hands out an item and no later add is accepted; "
+        "no invention / duplication / loss; real-time FIFO of ordinary adds). "
         "Trusted: Coq kernel + vm_compute; the hand models (C12_Pipe.v, C12_MQ.v, C12_Sync.v, C12_Pri.v) tied by the differential check; container/list, "
         "container/heap and github.com/eapache/queue are not re-modelled (list semantics; for the heap the theorems show that its documented contract "
         "- Pop returns a Less-minimum - determines the result uniquely); the Go harness' shadow count that decides which calls would block. "
@@ -35,10 +38,13 @@ CFG = {
     "rule": (
         "one case = one sequential history of calls on a freshly constructed queue (one of pipe/q.Q, pipe/async.Q, pipe/mux.Q, pipe/mq.MQ, "
         "queue/syncq.SyncQueue, queue/priq.PriQueue) with the result of every call; a case is non-trivial when at least one item was handed out or "
-        "at least one add was refused (full / closed); distinct = distinct Coq case term (configuration + calls + results)"
+        "at least one add was refused (full / closed); distinct = distinct Coq case term (configuration + calls + results). "
+        "Concurrent class: one case = one distinct round of 'add versus close' (1-3 adder goroutines x 1-3 adds, one goroutine Close + drain, final drain at quiescence; results with invocation/response ticks of one atomic counter replaced by ranks); "
+        "identical rounds are evaluated once (rounds run / distinct / evaluated are in harness_meta.race_add_vs_close); at most 600 distinct ordinary rounds per queue type are evaluated in Coq (6000 thorough) plus EVERY round in which the harness found no witness or an item after closed-and-empty"
     ),
     "trusted": [
         "container/list, container/heap (contract: Pop returns a Less-minimum; shown to determine the result), github.com/eapache/queue ring buffer: list semantics, exercised but not modelled",
+        "concurrent class: tick recording (one atomic counter, before the call / after it returned), the untrusted Go transcription of the sequential models used only to FIND the witness linearisation that Coq replays, de-duplication of identical rounds, the Go scheduler producing overlapping calls (no sleeps; rounds run under a 30 s watchdog)",
         "harness shadow count (accepted adds minus handed-out items, Close seen) deciding which calls are not issued because they would block; every call that can block runs under a 30 s watchdog and a call that never returns is an observed outcome the model never produces",
     ],
     "assumptions": [
